@@ -45,7 +45,7 @@ ASSUMPTIONS = [
 
 facts = c16_facts.facts
 
-SRCS = ["stat", "status", "smaps", "statm", "cmdline", "io"]
+SRCS = ["stat", "status", "smaps", "statm", "cmdline", "io", "smaps_rollup"]      # order = Driver/C16.lean allSrc
 BLOCK_CACHED = ["stat", "status", "smaps"]
 MODELLED = c16_facts.MODELLED
 PID = 424242
@@ -54,6 +54,20 @@ GID_OFF = 2000000
 
 
 FINDING_PROBE = "C16-probe-rereads-stat"
+FINDING_STATM = "C16-statm-reread-in-block"
+FINDING_GONE = "C16-guard-reports-gone-now"
+
+# docs/index.rst, Process.oneshot(), column "Linux": methods "efficiently grouped together internally" (= Spec.docGroups)
+DOC_GROUPS = {
+    "stat": ["cpu_num", "cpu_percent", "cpu_times", "create_time", "name", "ppid", "status", "terminal"],
+    "status": ["gids", "num_ctx_switches", "num_threads", "uids", "username"],
+    "smaps": ["memory_full_info", "memory_maps"],
+}
+# Process.oneshot()'s own comments: "cached in case memory_percent() is used" (front-end memory_info)
+FRONT_STATM = ["memory_info", "memory_percent"]
+# = Spec.notGetters (as_dict()'s documentation: "all public (read only) attributes")
+NOT_GETTERS = ["send_signal", "suspend", "resume", "terminate", "kill", "wait", "is_running", "as_dict", "parent", "parents",
+               "children", "rlimit", "connections", "oneshot"]
 
 
 class Boom(Exception):
@@ -114,6 +128,15 @@ class Impl:
         self.fp.write("stat", "cpu  1 1 1 1 1 1 1 1 1 1\nbtime 1700000000\n")
         self.tck = self.plat.CLOCK_TICKS
         self.page = self.plat.PAGESIZE
+        # memory_percent() = rss / total * 100: with total = 100 pages the percentage IS the statm version
+        self.saved_phymem = getattr(self.ps, "_TOTAL_PHYMEM", None)
+        self.ps._TOTAL_PHYMEM = 100 * self.page
+        # the smaps_rollup path of memory_full_info() is taken whenever the module saw the file at import (every kernel
+        # >= 4.14); the fake procfs offers / withdraws the file per history (op setabsent)
+        self.saved_rollup = self.plat.HAS_PROC_SMAPS_ROLLUP
+        if hasattr(self.plat.Process, "_parse_smaps_rollup"):
+            self.plat.HAS_PROC_SMAPS_ROLLUP = True
+        self.absent = {"smaps_rollup": False}
         self.valid = list(self.ps._as_dict_attrnames)      # iteration order of the module's set
         self.p = None
         self.dirty = set()
@@ -125,6 +148,8 @@ class Impl:
                 mod.__dict__.pop("open", None)
             else:
                 mod.open = old
+        self.ps._TOTAL_PHYMEM = self.saved_phymem
+        self.plat.HAS_PROC_SMAPS_ROLLUP = self.saved_rollup
         self.fp.close()
 
     # ---- world
@@ -153,6 +178,12 @@ class Impl:
                     "Shared_Clean:          0 kB\nShared_Dirty:          0 kB\nPrivate_Clean:        {v} kB\n"
                     "Referenced:            0 kB\nAnonymous:             0 kB\nSwap:                  0 kB\n"
                     "VmFlags: rd ex mr mw me\n").format(v=v)
+        if src == "smaps_rollup":
+            return ("00400000-7ffd00000000 ---p 00000000 00:00 0                      [rollup]\n"
+                    "Rss:                  {v} kB\nPss:                   0 kB\nPss_Dirty:             0 kB\n"
+                    "Shared_Clean:          0 kB\nShared_Dirty:          0 kB\nPrivate_Clean:        {v} kB\n"
+                    "Private_Dirty:         0 kB\nReferenced:            0 kB\nAnonymous:             0 kB\n"
+                    "Swap:                  0 kB\nSwapPss:               0 kB\nLocked:                0 kB\n").format(v=v)
         if src == "statm":
             return "%d %d 0 0 0 0 0\n" % (v, v)
         if src == "cmdline":
@@ -163,6 +194,12 @@ class Impl:
 
     def _write(self, src):
         if self.state == "gone":
+            return
+        if self.absent.get(src):
+            try:
+                os.remove(os.path.join(self.piddir, src))
+            except FileNotFoundError:
+                pass
             return
         # atomic: a thread that runs freely (after a drift the scheduler lets every worker finish on its own) must never
         # read a half-written file
@@ -175,7 +212,7 @@ class Impl:
     def reset_light(self):
         """fresh Process object over the same (alive, nothing denied) world, every content back to version 1; the files are
         rewritten lazily, right before the implementation opens them (explorer runs: thousands of short schedules)"""
-        if self.state != "alive" or any(self.denied.values()):
+        if self.state != "alive" or any(self.denied.values()) or any(self.absent.values()):
             return self.reset()
         self.ver = {s: 1 for s in SRCS}
         self.dirty = set(SRCS)
@@ -196,6 +233,7 @@ class Impl:
         self.dirty = set()
         self.ver = {s: 1 for s in SRCS}
         self.denied = {s: False for s in SRCS}
+        self.absent = {"smaps_rollup": False}
         self.state = "alive"
         self.total_probes = getattr(self, "total_probes", 0) + getattr(self, "probes", 0)
         self.reads = {s: 0 for s in SRCS}
@@ -228,6 +266,12 @@ class Impl:
         if src is not None and src in self.dirty:
             self.dirty.discard(src)
             self._write(src)                 # lazily materialised content (see reset_light / the explorer's version bumps)
+        if src == "smaps_rollup" and self.state != "gone":
+            if self.absent[src]:
+                raise FileNotFoundError(2, "No such file or directory", path)
+            if self.state == "zombie":
+                # a zombie has no mm: the kernel answers ESRCH for smaps_rollup (the "weird" case of _parse_smaps_rollup's comment)
+                raise ProcessLookupError(3, "No such process", path)
         if src is not None and self.state != "gone" and self.denied[src]:
             raise PermissionError(13, "Permission denied", path)
         f = self.real_open(file, *a, **kw)
@@ -356,6 +400,11 @@ class Impl:
         if k == "setdenied":
             if op["src"] != "stat":
                 self.denied[op["src"]] = op["b"]
+            return {"kind": "unit"}
+        if k == "setabsent":
+            if op["src"] == "smaps_rollup":
+                self.absent[op["src"]] = op["b"]
+                self._write(op["src"])
             return {"kind": "unit"}
         if k == "setstate":
             new = op["st"]
@@ -488,7 +537,7 @@ STAT_M = ["name", "ppid", "cpu_times", "cpu_num"]
 STATUS_M = ["uids", "gids", "username", "num_threads", "num_ctx_switches"]
 SMAPS_M = ["memory_maps", "memory_full_info"]
 OTHER_M = ["memory_info", "cmdline", "io_counters"]
-DENIABLE = ["status", "smaps", "statm", "cmdline", "io"]
+DENIABLE = ["status", "smaps", "statm", "cmdline", "io", "smaps_rollup"]
 UNMODELLED_SAMPLE = ["nice", "exe", "cwd", "num_fds", "threads", "open_files", "environ", "ionice",
                      "cpu_affinity", "terminal", "status", "create_time", "cpu_percent", "memory_percent",
                      "net_connections"]
@@ -574,6 +623,8 @@ def gen_history(rng, impl, family):
 
     if family == "first_read":
         src = rng.choice(BLOCK_CACHED)
+        if src == "smaps" and rng.random() < 0.5:
+            h.append({"op": "setabsent", "src": "smaps_rollup", "b": True})
         pool = {"stat": STAT_M, "status": STATUS_M, "smaps": SMAPS_M}[src]
         if rng.random() < 0.5:
             call(pool)
@@ -662,7 +713,32 @@ def gen_history(rng, impl, family):
                 h.append({"op": "setstate", "st": rng.choice(["zombie", "gone"])})
             if depth and rng.random() < 0.5:
                 leave()
+    elif family == "rollup":
+        # memory_full_info() on kernels with and without smaps_rollup (and the file coming / going inside a block)
+        pool = ["memory_full_info", "memory_full_info", "memory_maps", "memory_info"]
+        if rng.random() < 0.4:
+            h.append({"op": "setabsent", "src": "smaps_rollup", "b": True})
+        if rng.random() < 0.3:
+            call(pool)
+        for _ in range(n_ops):
+            r = rng.random()
+            if r < 0.4:
+                call(pool)
+            elif r < 0.6:
+                bump(rng.choice(["smaps_rollup", "smaps", "statm"]))
+            elif r < 0.7:
+                h.append({"op": "setabsent", "src": "smaps_rollup", "b": rng.random() < 0.5})
+            elif r < 0.78:
+                h.append({"op": "setdenied", "src": rng.choice(["smaps_rollup", "smaps"]), "b": rng.random() < 0.6})
+            elif r < 0.83:
+                h.append({"op": "setstate", "st": rng.choice(["zombie", "gone"])})
+            elif r < 0.92 or not depth:
+                enter()
+            else:
+                leave()
     else:  # mixed / long
+        if rng.random() < 0.3:
+            h.append({"op": "setabsent", "src": "smaps_rollup", "b": True})
         for _ in range(n_ops):
             r = rng.random()
             if r < 0.12:
@@ -686,7 +762,7 @@ def gen_history(rng, impl, family):
     return h
 
 
-FAMILIES = ["first_read", "nested", "exc_exit", "denied", "zombie", "gone", "asdict", "mixed", "long"]
+FAMILIES = ["first_read", "nested", "exc_exit", "denied", "zombie", "gone", "asdict", "mixed", "long", "rollup"]
 
 
 def exhaustive_histories(maxlen):
@@ -730,6 +806,8 @@ def history_features(h):
             feats.add("denied")
         elif k == "setstate":
             feats.add(o["st"])
+        elif k == "setabsent":
+            feats.add("rollup_absent" if o["b"] else "rollup_back")
         elif k == "asdict":
             feats.add("asdict_" + ("in_block" if depth else "top"))
             feats.add("asdict:" + o["kind"])
@@ -803,6 +881,15 @@ CORPUS = [
      {"op": "setdenied", "src": "smaps", "b": False}, {"op": "setver", "src": "smaps", "v": 3},
      {"op": "call", "m": "memory_full_info"}, {"op": "setver", "src": "smaps", "v": 4},
      {"op": "call", "m": "memory_maps"}, {"op": "exit", "exc": False}, {"op": "call", "m": "memory_maps"}],
+    # memory_full_info(): smaps_rollup where the kernel has it (not block-cached: re-read), smaps otherwise (cached helper)
+    [{"op": "call", "m": "memory_full_info"}, {"op": "enter"}, {"op": "call", "m": "memory_full_info"},
+     {"op": "setver", "src": "smaps_rollup", "v": 4}, {"op": "setver", "src": "smaps", "v": 6},
+     {"op": "call", "m": "memory_full_info"}, {"op": "call", "m": "memory_maps"},
+     {"op": "setabsent", "src": "smaps_rollup", "b": True}, {"op": "setver", "src": "smaps", "v": 8},
+     {"op": "call", "m": "memory_full_info"}, {"op": "exit", "exc": False}, {"op": "call", "m": "memory_full_info"},
+     {"op": "setabsent", "src": "smaps_rollup", "b": False}, {"op": "setver", "src": "smaps_rollup", "v": 9},
+     {"op": "call", "m": "memory_full_info"}, {"op": "setdenied", "src": "smaps_rollup", "b": True},
+     {"op": "call", "m": "memory_full_info"}, {"op": "setstate", "st": "zombie"}, {"op": "call", "m": "memory_full_info"}],
     # zombie inside a block; as_dict policy
     [{"op": "enter"}, {"op": "call", "m": "name"}, {"op": "setstate", "st": "zombie"},
      {"op": "call", "m": "memory_maps"}, {"op": "call", "m": "cmdline"},
